@@ -13,8 +13,8 @@ CHECK_DEADLOCK FALSE
 
 
 def configs(tier):
-    base = [dict(np=2, app="none", na=1, amt=3, lock=1, tot=3, ver=2),
-            dict(np=2, app="pay", na=1, amt=3, lock=1, tot=3, ver=2),
+    base = [dict(np=2, app="none", na=1, amt=3, lock=1, tot=3, ver=2, scaled=True),
+            dict(np=2, app="pay", na=1, amt=3, lock=1, tot=3, ver=2, scaled=True),
             dict(np=2, app="pay", na=2, amt=1, lock=1, tot=2, ver=1)]
     if tier == "thorough":
         base += [dict(np=2, app="none", na=2, amt=2, lock=1, tot=2, ver=1),
@@ -35,6 +35,12 @@ def one(binary, scratch, c, seed):
     r["out"] = ""
     d = vlib.run_driver(binary, "TestTransition", dict(VERIF_CASES=out, VERIF_NP=c["np"], VERIF_APP=c["app"], VERIF_SEED=seed),
                         scratch, tag, timeout=3000)
+    if c.get("scaled"):
+        # second pass: the same cases with every amount in units of 2^62 - totals cross 2^64 where single balances do not
+        d2 = vlib.run_driver(binary, "TestTransition", dict(VERIF_CASES=out, VERIF_NP=c["np"], VERIF_APP=c["app"], VERIF_SEED=seed,
+                                                            VERIF_SCALE_BITS=62), scratch, tag + "_scaled", timeout=3000)
+        d["violations"] += d2["violations"]
+        d["counts"]["scaled_evaluations"] = d2["counts"].get("evaluations", 0)
     os.remove(out)
     return r, d
 
@@ -77,6 +83,7 @@ def replay(prop, path, scratch):
     rp = json.load(open(path))
     e = vlib.go_env()
     e.update(VERIF_CASES=os.path.abspath(path), VERIF_REPLAY_LINE=rp["case"], VERIF_NP=str(rp["np"]), VERIF_APP=rp["app"],
+             VERIF_SCALE_BITS=str(rp.get("scale_bits", 0)),
              VERIF_OUT=os.path.join(scratch, "replay.json"), VERIF_REPLAY_DIR=os.path.join(scratch, "rp"))
     subprocess.run([binary, "-test.run", "^TestTransition$"], env=e, cwd=scratch)
     r = json.load(open(os.path.join(scratch, "replay.json")))
